@@ -59,6 +59,7 @@ class Run:
         log = self.b.log
         ident = rt.Identity()
         pol = make_policy(policy)
+        pol.list_identity_session = rng.choice(["echo", "echo", "zero", "other"])
         if driver_kind in ("logix", "micro"):
             micro = driver_kind == "micro"
             self.prj = project or small_project(rng, fw=12 if micro else None, micro800=micro)
